@@ -9,12 +9,15 @@ STORE_FILES = ["modeling/mesh.go", "modeling/tri.go", "modeling/line.go", "model
                "formats/gltf/model.go", "formats/gltf/model_trackers.go"]
 
 CFG = dict(
-    gen=[dict(tool="facts", mode="c01.stores", out="C01Stores.lean", args=STORE_FILES)],
-    modules=["PolyVerif.Props.C01", "PolyVerif.Props.C01Refine"],
+    gen=[dict(tool="facts", mode="c01.stores", out="C01Stores.lean", args=STORE_FILES),
+         # sharing summary of every exported Mesh-returning function of modeling/mesh.go (callees resolved in mesh.go and math/trs)
+         dict(tool="facts", mode="c01.classes", out="C01Classes.lean", args=["modeling/mesh.go", "math/trs"])],
+    modules=["PolyVerif.Props.C01", "PolyVerif.Props.C01Refine", "PolyVerif.Props.C01Classes"],
     theorems=["op_frame", "op_writes_fresh_only", "step_immutable", "history_immutable",
               "derivations_commute_partial", "appendInPlace_breaks", "store_sites_fresh",
               "op_refines", "append_refines", "attrLen_forced", "run_bounded", "derivations_commute",
-              "derivations_commute_reachable"],
+              "derivations_commute_reachable",
+              "classification_from_source", "classification_covers", "classification_no_unknown"],
     helper_theorems=["step_valid", "run_valid", "empty_valid", "appliesInOrder_spec", "store_sites_cover",
                      "step_bounded", "empty_bounded", "pureOp_mono"],
     streams=[dict(name="c01", n=dict(quick=300, thorough=6000))],
